@@ -78,3 +78,14 @@ def big_result(*_a):
 
 def raise_keyboard_interrupt(*_a):
     raise KeyboardInterrupt()
+
+
+def swallow_then_square(x):
+    """a target that never returns and swallows every Exception (uncooperative)"""
+    import time
+    while True:
+        try:
+            while True:
+                time.sleep(0.01)
+        except Exception:
+            pass
